@@ -5,10 +5,16 @@
 `visits …same…` → number of paint nodes visited by the model
 `v0 fg first num nL (idx gid|-1)*` → `<result> <events…>`
 `enter id n p0 … p(n-1)` → `ok` | `err:Cycle` | `err:Depth`
+`paint.bytes <colr hex> fg cm gid`  → as `paint`, the whole model evaluated from the COLR table BYTES
+`visits.bytes <colr hex> fg cm gid` → as `visits`
+`v0.bytes <colr hex> fg gid`        → as `v0` (`noglyph` when there is no v0 base glyph)
+`node.bytes <colr hex> pos`         → `none` | node kind and fields as in `paint` (`resolve_paint` from bytes)
+`grad.bytes <colr hex> pos`         → `none` | the case the gradient arm at `pos` takes (GCase)
 node kinds: 0 colrLayers(first,num) 1 leaf(fills) 2 glyph(gid,child) 3 colrGlyph(gid) 4 transform(child)
             5 composite(src,mode,backdrop)
 -/
 import FontVerif.Model.Paint
+import FontVerif.Model.PaintBytes
 namespace FontVerif.Drv.C13
 open FontVerif FontVerif.Paint
 
@@ -93,7 +99,61 @@ def parseReq (xs : List Int) : Option Req :=
       | _, _ => none
   | _ => none
 
+def nodeTok : Node → String
+  | .colrLayers a b => s!"0 {a} {b} 0"
+  | .leaf f => s!"1 {if f then 1 else 0} 0 0"
+  | .glyph g ch => s!"2 {g} {ch} 0"
+  | .colrGlyph g => s!"3 {g} 0 0"
+  | .transform ch => s!"4 {ch} 0 0"
+  | .composite s m b => s!"5 {s} {m} {b}"
+
+def gcaseTok : PaintBytes.GCase → String
+  | .degenerateSolid => "degenerateSolid"
+  | .degenerateEmpty => "degenerateEmpty"
+  | .noStops => "noStops"
+  | .zeroRangeNotPad => "zeroRangeNotPad"
+  | .zeroRangePad => "zeroRangePad"
+  | .sweepEmptySector => "sweepEmptySector"
+  | .gradient => "gradient"
+
+/-- the `*.bytes` commands: first argument is the COLR table as hex, the rest are naturals -/
+def handleBytes (cmd : String) (args : List String) : Option String :=
+  match args with
+  | [] => none
+  | hx :: rest =>
+    match parseHex? hx, parseNats? rest with
+    | some d, some xs =>
+      match cmd, xs with
+      | "paint.bytes", [fg, cm, gid] =>
+        match PaintBytes.paintBytes d (Client.ofModes fg cm) gid with
+        | none => some "noglyph"
+        | some res => some (showRes res)
+      | "visits.bytes", [fg, cm, gid] =>
+        match PaintBytes.paintBytes d (Client.ofModes fg cm) gid with
+        | none => some "noglyph"
+        | some res => some (toString res.2.visits)
+      | "v0.bytes", [fg, gid] =>
+        match PaintBytes.paintV0Bytes d (Client.ofModes fg 0) gid with
+        | none => some "noglyph"
+        | some res => some (showRes res)
+      | "node.bytes", [pos] =>
+        match PaintBytes.nodeOfBytes d pos with
+        | none => some "none"
+        | some n => some (nodeTok n)
+      | "grad.bytes", [pos] =>
+        match HandColr.paintRead d pos with
+        | .ok fmt =>
+          if 4 ≤ fmt ∧ fmt ≤ 9 then
+            match PaintBytes.gradientCase d pos fmt with
+            | none => some "none"
+            | some g => some (gcaseTok g)
+          else some "none"
+        | .error _ => some "none"
+      | _, _ => none
+    | _, _ => none
+
 def handle (cmd : String) (args : List String) : Option String :=
+  if cmd.endsWith ".bytes" then handleBytes cmd args else
   match parseInts? args with
   | none => none
   | some xs =>
